@@ -61,6 +61,30 @@ def run(ctx):
     ctx.rule("C06.R13", "rewards taken over by position when the actions are re-encoded come from a reward object that lists exactly the old actions (guarded by equality of the lists)")
     n13 = c10.positional_shortcuts(ctx, c10.find_writers(ctx), rule="C06.R13")
     ctx.floor("C06.R13", "positional reward shortcuts", n13, 1)
+    # "the action the learner chose": an answer by value is sampled as a PMF only if it can be one
+    c15.r16_pmf_recognition(ctx, rule="C06.R14")
+    # "the documented IPS transform": reward/probability reaches learn and the row as computed -- the reward objects keep what they are given (0 is a value)
+    r15_reward_constructors(ctx)
+
+
+def r15_reward_constructors(ctx, rule="C06.R15"):
+    ctx.rule(rule, "(also: no float()/int() coercion of a label) " + "reward objects store their constructor arguments as given: no `<parameter> or <default>` in a Rewards constructor (a value of 0 -- the IPS transform of a logged reward 0 -- "
+                   "is a value, not an absent argument); defaults come from the signature")
+    PRIM = "coba/primitives.py"
+    base = ctx.model.cls(PRIM, "Rewards")
+    n = 0
+    for c in ctx.model.subclasses(base):
+        init = c.methods.get("__init__")
+        if init is None:
+            continue
+        params = {a.arg for a in init.args.args[1:]} | {a.arg for a in init.args.kwonlyargs}
+        n += 1
+        bad = [b for b in ast.walk(init) if isinstance(b, ast.BoolOp) and isinstance(b.op, ast.Or) and any(isinstance(v, ast.Name) and v.id in params for v in b.values[:-1])]
+        # ... nor pushed through a lossy numeric conversion (float() of an integer label above 2**53 merges neighbouring labels); array scalars are unwrapped with .item()/.tolist()
+        bad += [b for b in ast.walk(init) if isinstance(b, ast.Call) and call_name(b) in ("float", "int", "round") and b.args and any(isinstance(y, ast.Name) and y.id in params for y in ast.walk(b.args[0]))]
+        ctx.ob(rule, PRIM, f"{c.name}.__init__", (bad or [init])[0], "no constructor parameter is replaced by a default when it is falsy", not bad, detail={"expressions": [unparse(b) for b in bad]},
+               stmt=f"{c.name}.__init__ stores arguments as given")
+    ctx.floor(rule, "Rewards constructors examined", n, 3)
 
 
 # ================================================================================================
@@ -639,6 +663,7 @@ def r6_wiring(ctx):
 
 
 CONTROLS = [
+    ("a reward value of 0 is read as 'not given'", "coba/primitives.py", M.replace_stmt("BinaryReward.__init__", M.text_has("self._value"), "self._value = value or 1.0"), "C06.R15"),
     ("choicew looks the weight up by equality", "coba/random.py", M.replace_expr("CobaRandom.choicew", "(seq[i], weights[i])", "(seq[i], weights[seq.index(seq[i])])"), "C06.R12"),
     ("positional rewards shortcut guarded by length only", "coba/environments/filters.py", M.replace_expr("Repr.filter", "old[target].actions == old['actions']", "len(old[target].actions) == len(old['actions'])"), "C06.R13"),
     ("recorded action loses the batch marker", SEQ, M.replace_expr("SequentialCB._results", "on_act if not batched else Batch.List(on_act)", "on_act"), "C06.R10"),
